@@ -36,6 +36,9 @@ CONSTANTS
   MaxWrites, WLens,
   Truncation,    \* BOOLEAN: the peer may die in the middle of a frame
   MaxQueued,     \* ws: messages the relay may have in flight (model bound)
+  FlushPolicy,   \* "flush" (required): a write completes only when the websocket library has handed the message to the socket
+                 \* | "no_flush": poll_write queues the message, tries to flush, ignores "not ready" and reports success
+  MaxBlock,      \* how often the socket may become blocked (write-side back pressure; ws only)
   WriteFailures, \* BOOLEAN: the transport may fail a write of the keep-alive reply (fatal for the connection)
   KeepHist,      \* FALSE in trace validation: the script of steps is not recorded
   FrameOK(_, _)  \* which (length, class) pairs the peer may produce (TRUE: any)
@@ -59,13 +62,16 @@ VARIABLES
   wcur, wleft, wlen, nwrites,  \* user write in progress: id, bytes left, total ; writes started
   wafter,    \* a user write() is flushing an interrupted keep-alive reply before its own frame
   out,       \* what the transport accepted: Seq(<<"p"|"w", id, idx, frame length>>)
-  units,     \* datagram / ws transports: lengths of the units (datagrams, messages) written
+  units,     \* datagram / ws transports: lengths of the units (datagrams, messages) that left for the peer
+  held,      \* ws: messages queued in the websocket library that have not been handed to the socket yet
+  blocked,   \* ws: the socket does not accept data at the moment (write-side back pressure)
+  nblock,    \* number of times the socket became blocked
   results,   \* what read() returned so far: Seq([t, id])
   nerr, npend, ncancel, ntimeout,
   hist       \* script of the externally visible steps (hidden by VIEW in exhaustive runs)
 
 core == <<cfg, sent, wsq, packed, net, eof, abuf, rbuf, roff, pc, pending, pongleft,
-          wcur, wleft, wlen, nwrites, wafter, out, units, results, nerr, npend, ncancel, ntimeout>>
+          wcur, wleft, wlen, nwrites, wafter, out, units, held, blocked, nblock, results, nerr, npend, ncancel, ntimeout>>
 vars == <<core, hist>>
 
 Tok(i, k) == <<i, k>>
@@ -88,7 +94,7 @@ Init ==
   /\ sent = <<>> /\ wsq = <<>> /\ packed = 0 /\ net = <<>> /\ eof = FALSE /\ abuf = <<>>
   /\ rbuf = <<>> /\ roff = 0 /\ pc = "idle" /\ pending = 0 /\ pongleft = 0
   /\ wcur = 0 /\ wleft = 0 /\ wlen = 0 /\ nwrites = 0 /\ wafter = FALSE
-  /\ out = <<>> /\ units = <<>> /\ results = <<>>
+  /\ out = <<>> /\ units = <<>> /\ held = <<>> /\ blocked = FALSE /\ nblock = 0 /\ results = <<>>
   /\ nerr = 0 /\ npend = 0 /\ ncancel = 0 /\ ntimeout = 0
   /\ hist = <<>>
 
@@ -102,7 +108,7 @@ PeerSend(n, c) ==
                  ELSE /\ wsq' = wsq \o FrameToks(Len(sent) + 1, n) /\ UNCHANGED net
   /\ Log(H("send", n, c))
   /\ UNCHANGED <<cfg, packed, eof, abuf, rbuf, roff, pc, pending, pongleft, wcur, wleft, wlen, nwrites, wafter,
-                 out, units, results, nerr, npend, ncancel, ntimeout>>
+                 out, units, held, blocked, nblock, results, nerr, npend, ncancel, ntimeout>>
 
 \* the peer dies in the middle of a frame: only the first k < n bytes of it arrive, then the stream ends
 PeerTruncated(n, k) ==
@@ -112,7 +118,7 @@ PeerTruncated(n, k) ==
   /\ eof' = TRUE
   /\ Log(H("sendp", n * 100 + k, "pkt"))
   /\ UNCHANGED <<cfg, wsq, packed, abuf, rbuf, roff, pc, pending, pongleft, wcur, wleft, wlen, nwrites, wafter,
-                 out, units, results, nerr, npend, ncancel, ntimeout>>
+                 out, units, held, blocked, nblock, results, nerr, npend, ncancel, ntimeout>>
 
 \* a datagram carries one or more whole frames
 PeerDgram(fs) ==
@@ -124,7 +130,7 @@ PeerDgram(fs) ==
   /\ sent' = sent \o fs
   /\ LogSeq([j \in 1..Len(fs) |-> H(IF j = 1 THEN "dgram" ELSE "dgram+", fs[j].len, fs[j].cls)])
   /\ UNCHANGED <<cfg, wsq, packed, eof, abuf, rbuf, roff, pc, pending, pongleft, wcur, wleft, wlen, nwrites, wafter,
-                 out, units, results, nerr, npend, ncancel, ntimeout>>
+                 out, units, held, blocked, nblock, results, nerr, npend, ncancel, ntimeout>>
 
 \* ws: the relay packs the next k bytes of its byte stream into one binary message
 PeerWsPack(k) ==
@@ -133,7 +139,7 @@ PeerWsPack(k) ==
   /\ wsq' = SubSeq(wsq, k + 1, Len(wsq)) /\ packed' = packed + k
   /\ Log(H("wsmsg", k, "binary"))
   /\ UNCHANGED <<cfg, sent, eof, abuf, rbuf, roff, pc, pending, pongleft, wcur, wleft, wlen, nwrites, wafter,
-                 out, units, results, nerr, npend, ncancel, ntimeout>>
+                 out, units, held, blocked, nblock, results, nerr, npend, ncancel, ntimeout>>
 
 \* ws: a message that is not binary (text, ping, pong) or an empty binary message
 PeerWsOther(kind) ==
@@ -141,13 +147,13 @@ PeerWsOther(kind) ==
   /\ net' = Append(net, [kind |-> kind, toks |-> <<>>])
   /\ Log(H("wsmsg", 0, kind))
   /\ UNCHANGED <<cfg, sent, wsq, packed, eof, abuf, rbuf, roff, pc, pending, pongleft, wcur, wleft, wlen, nwrites, wafter,
-                 out, units, results, nerr, npend, ncancel, ntimeout>>
+                 out, units, held, blocked, nblock, results, nerr, npend, ncancel, ntimeout>>
 
 PeerClose ==
   /\ cfg.transport \in {"stream", "ws"} /\ ~eof /\ eof' = TRUE
   /\ Log(H("close", 0, ""))
   /\ UNCHANGED <<cfg, sent, wsq, packed, net, abuf, rbuf, roff, pc, pending, pongleft, wcur, wleft, wlen, nwrites, wafter,
-                 out, units, results, nerr, npend, ncancel, ntimeout>>
+                 out, units, held, blocked, nblock, results, nerr, npend, ncancel, ntimeout>>
 
 ----------------------------------------------------------------------------
 (* read() *)
@@ -157,7 +163,7 @@ ReadCall ==
   /\ pc' = IF pending # 0 THEN "pong" ELSE "loop"    \* cancel-safe policy: finish an interrupted reply first
   /\ Log(H("read", 0, ""))
   /\ UNCHANGED <<cfg, sent, wsq, packed, net, eof, abuf, rbuf, roff, pending, pongleft, wcur, wleft, wlen, nwrites, wafter,
-                 out, units, results, nerr, npend, ncancel, ntimeout>>
+                 out, units, held, blocked, nblock, results, nerr, npend, ncancel, ntimeout>>
 
 HeadId  == rbuf[1][1]
 HeadLen == sent[HeadId].len       \* announced by the size byte; meaningful because of FramingInv
@@ -192,7 +198,7 @@ TryDecode ==
                     /\ Deliver([t |-> "pkt", id |-> id]) /\ pc' = "idle"
                     /\ UNCHANGED <<pending, pongleft>>
      ELSE /\ pc' = "fill" /\ UNCHANGED <<rbuf, roff, results, pending, pongleft, hist>>
-  /\ UNCHANGED <<cfg, sent, wsq, packed, net, eof, abuf, wcur, wleft, wlen, nwrites, wafter, out, units,
+  /\ UNCHANGED <<cfg, sent, wsq, packed, net, eof, abuf, wcur, wleft, wlen, nwrites, wafter, out, units, held, blocked, nblock,
                  nerr, npend, ncancel, ntimeout>>
 
 \* BytesMut::chunk_mut(): the spare capacity, reclaimed when exhausted.  Any
@@ -210,7 +216,7 @@ FillStream(k) ==
   /\ k \in 1..Min2(Offered, Len(net))
   /\ Filled(SubSeq(net, 1, k)) /\ net' = SubSeq(net, k + 1, Len(net))
   /\ Log(H("fill", k, ""))
-  /\ UNCHANGED <<cfg, sent, wsq, packed, eof, abuf, pending, pongleft, wcur, wleft, wlen, nwrites, wafter, out, units,
+  /\ UNCHANGED <<cfg, sent, wsq, packed, eof, abuf, pending, pongleft, wcur, wleft, wlen, nwrites, wafter, out, units, held, blocked, nblock,
                  results, nerr, npend, ncancel, ntimeout>>
 
 \* trace form: the spare capacity offered by the buffer is an observed input, not predicted
@@ -219,7 +225,7 @@ FillStreamObs(k, offered) ==
   /\ rbuf' = rbuf \o SubSeq(net, 1, k) /\ roff' = 0 /\ pc' = "loop"
   /\ net' = SubSeq(net, k + 1, Len(net))
   /\ Log(H("fill", k, ""))
-  /\ UNCHANGED <<cfg, sent, wsq, packed, eof, abuf, pending, pongleft, wcur, wleft, wlen, nwrites, wafter, out, units,
+  /\ UNCHANGED <<cfg, sent, wsq, packed, eof, abuf, pending, pongleft, wcur, wleft, wlen, nwrites, wafter, out, units, held, blocked, nblock,
                  results, nerr, npend, ncancel, ntimeout>>
 
 \* required: recv into a full-size scratch, keep what does not fit in the adaptor buffer
@@ -235,7 +241,7 @@ FillUdpBuffered ==
            /\ Filled(SubSeq(d, 1, k)) /\ abuf' = SubSeq(d, k + 1, Len(d))
            /\ Log(H("fill", k, "dgram"))
         /\ net' = Tail(net)
-  /\ UNCHANGED <<cfg, sent, wsq, packed, eof, pending, pongleft, wcur, wleft, wlen, nwrites, wafter, out, units,
+  /\ UNCHANGED <<cfg, sent, wsq, packed, eof, pending, pongleft, wcur, wleft, wlen, nwrites, wafter, out, units, held, blocked, nblock,
                  results, nerr, npend, ncancel, ntimeout>>
 
 \* deviation: recv straight into the caller's slice - the kernel discards the excess
@@ -244,7 +250,7 @@ FillUdpDirect ==
   /\ LET d == Head(net)  k == Min2(Offered, Len(d)) IN
      /\ Filled(SubSeq(d, 1, k)) /\ Log(H("fill", k, "dgram"))
   /\ net' = Tail(net)
-  /\ UNCHANGED <<cfg, sent, wsq, packed, eof, abuf, pending, pongleft, wcur, wleft, wlen, nwrites, wafter, out, units,
+  /\ UNCHANGED <<cfg, sent, wsq, packed, eof, abuf, pending, pongleft, wcur, wleft, wlen, nwrites, wafter, out, units, held, blocked, nblock,
                  results, nerr, npend, ncancel, ntimeout>>
 
 \* ws adaptor: drain the adaptor buffer first; otherwise pull messages, skipping
@@ -264,7 +270,7 @@ FillWs ==
            /\ Filled(SubSeq(d, 1, k)) /\ abuf' = SubSeq(d, k + 1, Len(d))
            /\ net' = Tail(ms)
            /\ Log(H("fill", k, "msg"))
-  /\ UNCHANGED <<cfg, sent, wsq, packed, eof, pending, pongleft, wcur, wleft, wlen, nwrites, wafter, out, units,
+  /\ UNCHANGED <<cfg, sent, wsq, packed, eof, pending, pongleft, wcur, wleft, wlen, nwrites, wafter, out, units, held, blocked, nblock,
                  results, nerr, npend, ncancel, ntimeout>>
 
 NothingReadable ==
@@ -278,7 +284,7 @@ FillEof ==
   /\ Deliver([t |-> "disconnected", id |-> 0]) /\ pc' = "closed"
   /\ net' = IF IsWs THEN <<>> ELSE net
   /\ UNCHANGED <<cfg, sent, wsq, packed, eof, abuf, rbuf, roff, pending, pongleft, wcur, wleft, wlen, nwrites, wafter,
-                 out, units, nerr, npend, ncancel, ntimeout>>
+                 out, units, held, blocked, nblock, nerr, npend, ncancel, ntimeout>>
 
 \* a transient transport error: read() returns it, the buffer keeps what it had
 FillErr ==
@@ -287,14 +293,14 @@ FillErr ==
   /\ results' = Append(results, [t |-> "io_err", id |-> 0])
   /\ LogSeq(<<H("err", 0, ""), H("result", 0, "io_err")>>)
   /\ UNCHANGED <<cfg, sent, wsq, packed, net, eof, abuf, rbuf, roff, pending, pongleft, wcur, wleft, wlen, nwrites, wafter,
-                 out, units, npend, ncancel, ntimeout>>
+                 out, units, held, blocked, nblock, npend, ncancel, ntimeout>>
 
 \* tokio: the transport is not ready; the read future stays suspended
 FillPending ==
   /\ pc = "fill" /\ IsTokio /\ npend < MaxPending
   /\ npend' = npend + 1 /\ Log(H("pend", 0, "r"))
   /\ UNCHANGED <<cfg, sent, wsq, packed, net, eof, abuf, rbuf, roff, pc, pending, pongleft, wcur, wleft, wlen,
-                 nwrites, wafter, out, units, results, nerr, ncancel, ntimeout>>
+                 nwrites, wafter, out, units, held, blocked, nblock, results, nerr, ncancel, ntimeout>>
 
 \* tokio: nothing arrived for DEFAULT_TIMEOUT_SECS
 FillTimeout ==
@@ -303,13 +309,21 @@ FillTimeout ==
   /\ results' = Append(results, [t |-> "timeout", id |-> 0])
   /\ LogSeq(<<H("timeout", 0, ""), H("result", 0, "timeout")>>)
   /\ UNCHANGED <<cfg, sent, wsq, packed, net, eof, abuf, rbuf, roff, pending, pongleft, wcur, wleft, wlen, nwrites, wafter,
-                 out, units, nerr, npend, ncancel>>
+                 out, units, held, blocked, nblock, nerr, npend, ncancel>>
 
 \* the keep-alive reply: the transport accepts k of the remaining bytes
+\* ws: the message is queued in the library and a flush is attempted.  Under the required policy the operation does not
+\* complete while the socket is blocked (the step is simply not enabled: the future stays pending); under "no_flush" it
+\* completes with the message still queued, and queued messages only leave with a later write that finds the socket ready.
+WsCanAccept == IsWs => (FlushPolicy = "no_flush" \/ ~blocked)
+Leave(k) == /\ units' = IF ~Atomic THEN units ELSE IF IsWs /\ blocked THEN units ELSE units \o held \o <<k>>
+            /\ held' = IF IsWs /\ blocked THEN Append(held, k) ELSE IF IsWs THEN <<>> ELSE held
+            /\ UNCHANGED <<blocked, nblock>>
+
 PongWrite(k) ==
-  /\ pc = "pong" /\ pongleft > 0 /\ k \in 1..pongleft /\ (Atomic => k = pongleft)
+  /\ pc = "pong" /\ pongleft > 0 /\ k \in 1..pongleft /\ (Atomic => k = pongleft) /\ WsCanAccept
   /\ out' = out \o [j \in 1..k |-> <<"p", pending, 4 - pongleft + j, 4>>]
-  /\ units' = IF Atomic THEN Append(units, k) ELSE units
+  /\ Leave(k)
   /\ IF WritePolicy = "single_write" \/ pongleft = k
      THEN IF wafter
           THEN \* the reply was being flushed by a user write(): the frame follows, the packet waits for the next read()
@@ -333,20 +347,20 @@ PongFail ==
   /\ results' = Append(results, [t |-> "io_err", id |-> pending]) /\ pc' = "dead"
   /\ LogSeq(<<H("pongerr", 0, ""), H("result", pending, "io_err")>>)
   /\ UNCHANGED <<cfg, sent, wsq, packed, net, eof, abuf, rbuf, roff, pending, pongleft, wcur, wleft, wlen, nwrites, wafter,
-                 out, units, nerr, npend, ncancel, ntimeout>>
+                 out, units, held, blocked, nblock, nerr, npend, ncancel, ntimeout>>
 
 \* read() after a user write flushed the reply: the keep-alive is handed over at once
 PongFinish ==
   /\ pc = "pong" /\ pongleft = 0 /\ pending # 0
   /\ Deliver([t |-> "pkt", id |-> pending]) /\ pending' = 0 /\ pc' = "idle"
   /\ UNCHANGED <<cfg, sent, wsq, packed, net, eof, abuf, rbuf, roff, pongleft, wcur, wleft, wlen, nwrites, wafter,
-                 out, units, nerr, npend, ncancel, ntimeout>>
+                 out, units, held, blocked, nblock, nerr, npend, ncancel, ntimeout>>
 
 PongPending ==
   /\ pc = "pong" /\ pongleft > 0 /\ IsTokio /\ npend < MaxPending
   /\ npend' = npend + 1 /\ Log(H("pend", 0, "w"))
   /\ UNCHANGED <<cfg, sent, wsq, packed, net, eof, abuf, rbuf, roff, pc, pending, pongleft, wcur, wleft, wlen,
-                 nwrites, wafter, out, units, results, nerr, ncancel, ntimeout>>
+                 nwrites, wafter, out, units, held, blocked, nblock, results, nerr, ncancel, ntimeout>>
 
 \* tokio: the read future is dropped at a suspension point (select! against a timer)
 Cancel ==
@@ -356,7 +370,7 @@ Cancel ==
      THEN UNCHANGED <<pending, pongleft>>            \* the reply and its packet survive in the connection
      ELSE /\ pending' = 0 /\ pongleft' = 0           \* they lived in the future: gone
   /\ Log(H("cancel", 0, ""))
-  /\ UNCHANGED <<cfg, sent, wsq, packed, net, eof, abuf, rbuf, roff, wcur, wleft, wlen, nwrites, wafter, out, units,
+  /\ UNCHANGED <<cfg, sent, wsq, packed, net, eof, abuf, rbuf, roff, wcur, wleft, wlen, nwrites, wafter, out, units, held, blocked, nblock,
                  results, nerr, npend, ntimeout>>
 
 ----------------------------------------------------------------------------
@@ -368,24 +382,36 @@ WriteCall(n) ==
   \* an interrupted keep-alive reply is completed first, so that frames never interleave
   /\ IF pending # 0 /\ pongleft > 0 THEN pc' = "pong" /\ wafter' = TRUE ELSE pc' = "write" /\ wafter' = FALSE
   /\ Log(H("wcall", n, ""))
-  /\ UNCHANGED <<cfg, sent, wsq, packed, net, eof, abuf, rbuf, roff, pending, pongleft, out, units, results,
+  /\ UNCHANGED <<cfg, sent, wsq, packed, net, eof, abuf, rbuf, roff, pending, pongleft, out, units, held, blocked, nblock, results,
                  nerr, npend, ncancel, ntimeout>>
 
 WriteAccept(k) ==
-  /\ pc = "write" /\ k \in 1..wleft /\ (Atomic => k = wleft)
+  /\ pc = "write" /\ k \in 1..wleft /\ (Atomic => k = wleft) /\ WsCanAccept
   /\ out' = out \o [j \in 1..k |-> <<"w", wcur, wlen - wleft + j, wlen>>]
-  /\ units' = IF Atomic THEN Append(units, k) ELSE units
+  /\ Leave(k)
   /\ IF WritePolicy = "single_write" \/ wleft = k
      THEN /\ wleft' = 0 /\ pc' = "idle" /\ LogSeq(<<H("wacc", k, ""), H("wdone", wcur, "")>>)
      ELSE /\ wleft' = wleft - k /\ Log(H("wacc", k, "")) /\ UNCHANGED pc
   /\ UNCHANGED <<cfg, sent, wsq, packed, net, eof, abuf, rbuf, roff, pending, pongleft, wcur, wlen, nwrites, wafter,
                  results, nerr, npend, ncancel, ntimeout>>
 
+\* write-side back pressure on the websocket's socket: it stops / resumes accepting data (nobody is notified)
+WsBlock ==
+  /\ IsWs /\ ~blocked /\ nblock < MaxBlock
+  /\ blocked' = TRUE /\ nblock' = nblock + 1
+  /\ UNCHANGED <<cfg, sent, wsq, packed, net, eof, abuf, rbuf, roff, pc, pending, pongleft, wcur, wleft, wlen, nwrites, wafter,
+                 out, units, held, results, nerr, npend, ncancel, ntimeout, hist>>
+WsUnblock ==
+  /\ IsWs /\ blocked
+  /\ blocked' = FALSE
+  /\ UNCHANGED <<cfg, sent, wsq, packed, net, eof, abuf, rbuf, roff, pc, pending, pongleft, wcur, wleft, wlen, nwrites, wafter,
+                 out, units, held, nblock, results, nerr, npend, ncancel, ntimeout, hist>>
+
 WritePending ==
   /\ pc = "write" /\ IsTokio /\ npend < MaxPending
   /\ npend' = npend + 1 /\ Log(H("pend", 0, "w"))
   /\ UNCHANGED <<cfg, sent, wsq, packed, net, eof, abuf, rbuf, roff, pc, pending, pongleft, wcur, wleft, wlen,
-                 nwrites, wafter, out, units, results, nerr, ncancel, ntimeout>>
+                 nwrites, wafter, out, units, held, blocked, nblock, results, nerr, ncancel, ntimeout>>
 
 ----------------------------------------------------------------------------
 Frame(n, c) == [len |-> n, cls |-> c]
@@ -409,7 +435,7 @@ Next ==
   \/ DoFillStream \/ FillUdpBuffered \/ FillUdpDirect \/ FillWs
   \/ FillEof \/ FillErr \/ FillPending \/ FillTimeout
   \/ DoPongWrite \/ PongPending \/ PongFinish \/ PongFail \/ Cancel
-  \/ DoWriteCall \/ DoWriteAccept \/ WritePending
+  \/ DoWriteCall \/ DoWriteAccept \/ WritePending \/ WsBlock \/ WsUnblock
 
 Spec == Init /\ [][Next]_vars
 
@@ -496,6 +522,9 @@ OutContig == \A i \in 1..(Len(out) - 1) :
 \* C08 / C20: on datagram and message transports every written frame is exactly one unit
 UnitsOk == Atomic => \A i \in 1..Len(units) : units[i] \in (WLens \cup {4})
 
+\* C20 (C06): every written frame has left for the peer once the operation that wrote it has completed
+AllLeft == (pc \in {"idle", "closed", "loop", "fill"}) => held = <<>>
+
 \* C05 / C20: 'disconnected' only after the stream ended with nothing readable
 DiscOk == \A i \in 1..Len(results) : results[i].t = "disconnected" => (eof /\ i = Len(results))
 
@@ -509,6 +538,7 @@ TypeOK ==
   /\ (pc = "pong" => pending # 0)
   /\ (wafter => pc = "pong")
   /\ roff >= 0
+  /\ blocked \in BOOLEAN /\ (~IsWs => held = <<>> /\ ~blocked)
 
 \* liveness (FairSpec only): every frame that arrived is eventually delivered
 AllDelivered == <>[](Len(Observed) >= Min2(Arrived, Len(ExpectedSeq)) \/ pc = "dead")
